@@ -76,6 +76,37 @@ func frameWriteRule(c *Ctx, rule, pkg string) {
 			c.Ok(rule, key+" (payload)", pos, "the data parameter itself, whole")
 			continue
 		}
+		// the prefix made by appending: AppendUint32(<empty>, uint32(len(data))); a whole frame: append(<that>, data...)
+		appendedPrefix := func(v ssa.Value) bool {
+			ac, ok := throughCell(strip(v)).(*ssa.Call)
+			if !ok || !strings.HasSuffix(calleeName(ac), "bigEndian).AppendUint32") || len(ac.Call.Args) < 3 {
+				return false
+			}
+			base := strip(ac.Call.Args[1])
+			empty := false
+			switch b := base.(type) {
+			case *ssa.Const:
+				empty = b.IsNil()
+			case *ssa.MakeSlice:
+				empty = isConstInt(b.Len, 0)
+			case *ssa.Slice:
+				// buf[:0] of a local array
+				empty = b.Low == nil && isConstInt(b.High, 0)
+			}
+			return empty && isLenData(ac.Call.Args[2])
+		}
+		if appendedPrefix(arg) {
+			writes = append(writes, wcall{cv, "prefix"})
+			c.Ok(rule, key+" (prefix)", pos, "AppendUint32(<empty>, uint32(len(data)))")
+			continue
+		}
+		if ap, ok := arg.(*ssa.Call); ok {
+			if bi, isB := ap.Call.Value.(*ssa.Builtin); isB && bi.Name() == "append" && len(ap.Call.Args) == 2 && appendedPrefix(ap.Call.Args[0]) && throughCell(strip(ap.Call.Args[1])) == data {
+				writes = append(writes, wcall{cv, "frame"})
+				c.Ok(rule, key+" (assembled frame)", pos, "append(AppendUint32(<empty>, uint32(len(data))), data...)")
+				continue
+			}
+		}
 		sl, isSl := arg.(*ssa.Slice)
 		if !isSl {
 			c.Und(rule, key, pos, "the value written is neither the data parameter nor a slice of a local buffer: "+w.Short(arg))
